@@ -126,6 +126,16 @@ def tiling_site(repo, col, ms, qn, expect_axes=3, require_count=True,
                         has_helper_call(subst_table[ext.id]):
                     import copy as _cp
                     ext = _cp.deepcopy(subst_table[ext.id])
+            # n[k] with n = helper(...): element k of what the helper returns
+            if isinstance(ext, ast.Subscript) and \
+                    isinstance(ext.value, ast.Name) and \
+                    ext.value.id in subst_table and \
+                    has_helper_call(subst_table[ext.value.id]):
+                import copy as _cp
+                ext = ast.Subscript(
+                    value=_cp.deepcopy(subst_table[ext.value.id]),
+                    slice=_cp.deepcopy(ext.slice), ctx=ast.Load())
+                ast.fix_missing_locations(ext)
             for _ in range(2):
                 repl = {}
                 for cc in ast.walk(ext):
@@ -148,6 +158,8 @@ def tiling_site(repo, col, ms, qn, expect_axes=3, require_count=True,
                 import copy as _copy
                 # ids change under deepcopy: transform in place on a wrapper
                 ext = _R().visit(ext)
+            from .dataflow import index_elementwise
+            ext = index_elementwise(ext)
             try:
                 c = canon(ext, dict(subst_table, **aliases))
             except NotInt:
